@@ -1202,6 +1202,18 @@ theorem load_returns_last_save (sp : Spec) (hnd : (sp.writes.map Entry.key).Nodu
   rw [run_snoc]
   simp only [step, hl]
 
+/-- what the driver reports (`loadOutcomes`, the outcome of every `load` of a history in order) is what the theorem speaks
+about: the outcome of a `load` at the end of a history is `loadFile` on the process the history has produced -/
+theorem loadOutcomes_snoc_load (sp : Spec) (p : Proc α) (ops : List (Op α)) (f : String) (s0 : State α) :
+    loadOutcomes sp p (ops ++ [.load f s0]) = loadOutcomes sp p ops ++ [loadFile sp (run sp p ops) f s0] := by
+  induction ops generalizing p with
+  | nil => simp [loadOutcomes, run]
+  | cons op r ih =>
+    cases op with
+    | solve i s' => simpa [loadOutcomes, run] using ih (step sp p (.solve i s'))
+    | save i g => simpa [loadOutcomes, run] using ih (step sp p (.save i g))
+    | load g t0 => simpa [loadOutcomes, run] using ih (step sp p (.load g t0))
+
 /-- … for the precipitation model: every observable (sixteen histories; per phase PBM data, size distribution,
 bounds, sizes, aspect-ratio table), any number of distinct phases -/
 theorem precip_load_returns_last_save (phases : List String) (hph : phases.Nodup)
